@@ -746,6 +746,11 @@ func (d *Data) ServeHTTP(uuid dvid.UUID, ctx *datastore.VersionedCtx, w http.Res
 			server.BadRequest(w, r, "expect key string to follow 'key' endpoint")
 			return
 		}
+		if len(parts) > 5 {
+			// the path is split at every '/': only its first element after 'key' would be used as the key
+			server.BadRequest(w, r, "a key cannot contain '/': got %q", strings.Join(parts[4:], "/"))
+			return
+		}
 		keyStr := parts[4]
 
 		switch action {
